@@ -552,6 +552,9 @@ func (e *Exec) porcupineCheck() {
 			if w >= len(s.o) || s.o[w] < 0 {
 				continue
 			}
+			if md.closeInv > 0 && s.ret >= md.closeInv {
+				continue // overlaps Close: only the ErrClosed contract applies
+			}
 			id++
 			ops = append(ops, porcupine.Operation{ClientId: 1 + s.reader, Input: regIn{false, 0}, Call: s.inv, Output: s.o[w], Return: s.ret})
 		}
